@@ -95,9 +95,23 @@ def register(R):
 
     P = "menelaus.partitioners.KDQTreePartitioner:KDQTreePartitioner"
     R.klass(P, fields={"count_ubound": "Int", "cutpoint_proportion_lbound": "Real", "node": "Lazy[KDQTreeNode]",
-                       "leaves": "Opaque[AnyList]"}, invariant=[])
+                       "leaves": "Opaque[AnyList]"}, ghost={"sizes": "List[Int]"}, invariant=[])
     PN = NEWCOUNT.replace("node.", "self.node.")
     PO = OTHERS.replace("node.", "self.node.")
+    # build: the minimum cell size of each feature is int(proportion * range of that feature over the build data) - computed
+    # per COLUMN - and the tree is what KDQTreeNode.build makes of the data with these sizes (its contract, proved above)
+    R.contract(P + ".build", tags=("C08", "C18"), params={"data": "Nd2c"},
+               calls={N + ".build": "contract"},
+               # (np.ptp of an empty column raises: the detectors only ever build from validated batches of >= 2 rows)
+               requires=["self.cutpoint_proportion_lbound >= 0", "mcols(data) >= 1", "mrows(data) >= 1"],
+               ensures=["self.node is not None and result is not None",
+                        "self.node.%s['build'] == mrows(data) and invariant_of(self.node)" % CNT,
+                        "implies(mrows(data) <= self.count_ubound, self.node.axis is None)",
+                        "len(self.ghost.sizes) == mcols(data)",
+                        "forall(a, 0, mcols(data), self.ghost.sizes[a] == floor(self.cutpoint_proportion_lbound * "
+                        "(colmax(data, a) - colmin(data, a))))"],
+               ghost_update=["self.ghost.sizes = min_cutpoint_sizes"],
+               modifies=["node"], check_invariant=False, assume_invariant=False)
     R.contract(P + ".fill", tags=("C08",), params={"data": "Nd2c", "tree_id": "Str", "reset": "Bool"},
                calls={N + ".fill": "contract"},
                assume=["self.node is None or tree_inv2(self.node)",
